@@ -1,6 +1,6 @@
 (* C01 — table obligations (closed computations on the regenerated Tables.v) and the lemmas of
    ReqProofs.v instantiated with them. *)
-From G01 Require Import ReqE2E ViaProofs ReqProofs RouteProofs Ob18.
+From G01 Require Import ReqE2E ViaProofs ReqProofs RouteProofs E2EProofs Ob18.
 From G16 Require C16.
 
 (* the source's hop-by-hop list is the documented one (Connection, Keep-Alive, Proxy-Authenticate,
@@ -77,6 +77,11 @@ Definition f18_self_route := self_route ob_hop_list ob_flat_stack ob_xff_reads_a
   ob_via_reads_all_lines ob_via_loop_status ob_via_sets_close status_400.
 Definition f18_two_instance_route := two_instance_route ob_hop_list ob_flat_stack ob_xff_reads_all_lines ob_xfwd_fill_reads_all_lines
   ob_via_reads_all_lines ob_via_loop_status ob_via_sets_close status_400.
+
+Definition f01_e2e_meets_oracle := e2e_model_meets_oracle ob_hop_list ob_flat_stack ob_xff_reads_all_lines ob_xfwd_fill_reads_all_lines
+  ob_via_reads_all_lines ob_via_loop_status ob_via_sets_close ob_via_join_sep ob_proto_table ob_handle_order ob_allow_http.
+Definition f01_e2e_refusal := e2e_model_refusal ob_hop_list ob_flat_stack ob_xff_reads_all_lines ob_xfwd_fill_reads_all_lines
+  ob_via_reads_all_lines ob_via_loop_status ob_via_sets_close ob_via_join_sep ob_handle_order ob_status_handler_listed.
 
 Lemma f01_user_agent_never_default tag r r' : modify_request tag r = Passed r' -> raw_get k_ua (q_hdr r') <> None.
 Proof. intro H. rewrite (f01_user_agent tag r r' H). destruct (raw_get k_ua (after_removal (q_hdr r))); discriminate. Qed.
